@@ -7,11 +7,83 @@
      E kind a b | text cps | cs cps   -> text_edit;      "P" or "l1 c1 l2 c2 | cps"
      C l1 c1 l2 c2 | text cps | nt    -> client_apply (spec); "N" or "O cps"
      A kind a b | text cps | cs cps   -> Suggestion::apply;   "P" or "O cps"
+     T x                              -> `x as u32` of a usize x (decimal, < 2^62): x mod 2^32
+     H | docs | foreign | ops         -> a history on ONE DocumentState (Model/C08DocState.v: drv_run)
+         docs    = doc ; doc ; ...     doc = id , text cps , lint / lint / ... , url table "i a b i a b ..." (get_token_at_char_index(i) is the Url token [a,b))
+                   lint = start end prio spell tag key : sug : sug ...   sug = kind cps (0 ReplaceWith 1 InsertAfter 2 Remove)
+         foreign = docid start end prio tag key ; ...   (key of a lint against a document it does not belong to)
+         ops     = D id ; G sev ; A l1 c1 l2 c2 force_stable ; I docid lintidx ; ...
+         answer  = one item per G / A operation joined by " ; ":
+                   "G: l1 c1 l2 c2 sev tag, ..." | "G: P" | "A: item, item, ..." | "A: P"
+                   item = E l1 c1 l2 c2 [cps] | I start end prio tag nsugs | U [cps] | F [cps] | O [cps]
+     S and E run the conversions WITH their u32 casts (span_to_range_u32 / text_edit_u32)
    with the argument --old, R runs range_to_span_old (HISTORY: the code before 229693d, the fix of F9;
    used by hand to explain the reverse-fix mutation, never by ./check) *)
 let old = Array.exists (fun a -> a = "--old") Sys.argv
 let i = int_of_nat
 let n = nat_of_int
+let split_on c s = List.map String.trim (String.split_on_char c s)
+let nonempty l = List.filter (fun x -> x <> "") l
+let parse_sug s =
+  match ints_of_line s with
+  | 0 :: cs -> ReplaceWith (List.map n_of_int cs)
+  | 1 :: cs -> InsertAfter (List.map n_of_int cs)
+  | _ -> Remove
+let parse_lint s =
+  match split_on ':' s with
+  | hd :: sugs ->
+      (match ints_of_line hd with
+       | [a; b; p; sp; tag; key] ->
+           ({ lspan = { sstart = n a; send = n b }; lprio = n p; lsugs = List.map parse_sug sugs;
+              lspell = (sp = 1); ltag = n_of_int tag }, n_of_int key)
+       | _ -> failwith "lint")
+  | [] -> failwith "lint"
+let rec triples = function i :: a :: b :: r -> (n i, { sstart = n a; send = n b }) :: triples r | _ -> []
+let parse_doc s =
+  match split_on ',' s with
+  | [id; t; lints; urls] ->
+      { dd_id = n (int_of_string id); dd_text = text_of_line t;
+        dd_lints = List.map parse_lint (nonempty (split_on '/' lints)); dd_urls = triples (ints_of_line urls) }
+  | _ -> failwith "doc"
+let parse_foreign s =
+  match ints_of_line s with
+  | [d; a; b; p; tag; key] ->
+      ((n d, { lspan = { sstart = n a; send = n b }; lprio = n p; lsugs = []; lspell = false; ltag = n_of_int tag }),
+       n_of_int key)
+  | _ -> failwith "foreign"
+let find_doc docs id = List.find (fun d -> i d.dd_id = id) docs
+let parse_op docs s =
+  match String.split_on_char ' ' s with
+  | "D" :: [id] -> OSetDocument (find_doc docs (int_of_string id))
+  | "G" :: [sev] -> ODiagnostics (n (int_of_string sev))
+  | "A" :: [l1; c1; l2; c2; fs] ->
+      let f x = n (int_of_string x) in
+      OCodeActions (((f l1, f c1), (f l2, f c2)), fs = "1")
+  | "I" :: [d; k] -> OIgnore (fst (List.nth (find_doc docs (int_of_string d)).dd_lints (int_of_string k)))
+  | _ -> failwith "op"
+let show_range ((l1, c1), (l2, c2)) = Printf.sprintf "%d %d %d %d" (i l1) (i c1) (i l2) (i c2)
+let show_action = function
+  | AEdit (r, nt, _) -> String.trim (Printf.sprintf "E %s [%s]" (show_range r) (line_of_text nt))
+  | AIgnore l ->
+      Printf.sprintf "I %d %d %d %d %d" (i l.lspan.sstart) (i l.lspan.send) (i l.lprio) (int_of_n l.ltag)
+        (List.length l.lsugs)
+  | AAddUser w -> Printf.sprintf "U [%s]" (line_of_text w)
+  | AAddFile w -> Printf.sprintf "F [%s]" (line_of_text w)
+  | AOpenUrl w -> Printf.sprintf "O [%s]" (line_of_text w)
+let show_answer = function
+  | RNone -> None
+  | RDiagnostics (Panic _) -> Some "G: P"
+  | RDiagnostics (Ok ds) ->
+      Some (String.trim ("G: " ^ String.concat ", "
+        (List.map (fun ((r, sev), tag) -> Printf.sprintf "%s %d %d" (show_range r) (i sev) (int_of_n tag)) ds)))
+  | RActions (Panic _) -> Some "A: P"
+  | RActions (Ok acts) -> Some (String.trim ("A: " ^ String.concat ", " (List.map show_action acts)))
+let run_history docs foreign ops =
+  let docs = List.map parse_doc (nonempty (split_on ';' docs)) in
+  let foreign = List.map parse_foreign (nonempty (split_on ';' foreign)) in
+  let ops = List.map (parse_op docs) (nonempty (split_on ';' ops)) in
+  let d0 = { dd_id = n 0; dd_text = []; dd_lints = []; dd_urls = [] } in
+  String.concat " ; " (List.filter_map show_answer (drv_run foreign d0 ops))
 let () =
   iter_lines (fun l ->
     if String.length l = 0 then print_newline () else
@@ -22,7 +94,7 @@ let () =
       | 'S', [hd; t] ->
           (match ints_of_line hd with
            | [a; b] ->
-               (match run_span_to_range (text_of_line t) (n a) (n b) with
+               (match run_span_to_range_u32 (text_of_line t) (n a) (n b) with
                 | None -> "P"
                 | Some ((l1, c1), (l2, c2)) -> Printf.sprintf "%d %d %d %d" (i l1) (i c1) (i l2) (i c2))
            | _ -> "?")
@@ -57,7 +129,7 @@ let () =
       | 'E', [hd; t; cs] ->
           (match ints_of_line hd with
            | [k; a; b] ->
-               (match run_text_edit (n k) (text_of_line cs) (n a) (n b) (text_of_line t) with
+               (match run_text_edit_u32 (n k) (text_of_line cs) (n a) (n b) (text_of_line t) with
                 | None -> "P"
                 | Some (((l1, c1), (l2, c2)), nt) ->
                     String.trim (Printf.sprintf "%d %d %d %d | %s" (i l1) (i c1) (i l2) (i c2) (line_of_text nt)))
@@ -76,6 +148,8 @@ let () =
                 | None -> "P"
                 | Some r -> String.trim ("O " ^ line_of_text r))
            | _ -> "?")
+      | 'T', [x] -> string_of_int (int_of_n (run_as_u32 (n_of_int (int_of_string x))))
+      | 'H', [_; docs; foreign; ops] -> (try run_history docs foreign ops with _ -> "?")
       | _ -> "?"
     in
     print_endline out)
